@@ -101,7 +101,32 @@ func (p *objectWalker) walkAllRefs() error {
 		}
 		return p.walkObjectTree(ref.Hash())
 	})
-	return err
+	if err != nil {
+		return err
+	}
+	return p.walkIndex()
+}
+
+// walkIndex marks the blobs the index refers to as seen: content that is
+// staged but not committed yet is reachable from nowhere else, and must
+// survive pruning and repacking like git keeps it. Index entries have no
+// children to follow; entries whose object is not stored (gitlinks, or
+// blobs withheld in a partial clone) are left alone.
+func (p *objectWalker) walkIndex() error {
+	idx, err := p.Storer.Index()
+	if err != nil {
+		return err
+	}
+	for _, e := range idx.Entries {
+		if e.Mode == filemode.Submodule || p.isSeen(e.Hash) {
+			continue
+		}
+		if err := p.Storer.HasEncodedObject(e.Hash); err != nil {
+			continue
+		}
+		p.add(e.Hash)
+	}
+	return nil
 }
 
 func (p *objectWalker) isSeen(hash plumbing.Hash) bool {
